@@ -1,6 +1,7 @@
 package checks
 
 import (
+	"crypto/sha256"
 	"fmt"
 	"strings"
 	"testing"
@@ -307,8 +308,17 @@ func TestC07(t *testing.T) {
 			{"import l \"lib.tsh\"\nmg := 1\nprint(l.Pub(), mg)\n", "func Pub() int {\n\tmg = 2\n\treturn 1\n}\n", "reject", "global-of-importer-written-in-imported-function"},
 			{"import l \"lib.tsh\"\nfunc mainfn() int {\n\treturn 1\n}\nprint(l.Pub(), mainfn())\n", "func Pub() int {\n\treturn mainfn()\n}\n", "reject", "function-of-importer-called-in-imported-file"},
 			{"import l \"lib.tsh\"\nprint(l.Pub())\n", "func Pub() int {\n\treturn 1\n}\nprint(undefinedhere)\n", "reject", "undefined-name-in-imported-top-level-code"},
+			// the name under which a global of the imported file lives in the script is no name of the importer
+			{"import l \"lib.tsh\"\nprint(l.Pub(), @MANGLED@Gl)\n", "Gl := 5\nfunc Pub() int {\n\treturn Gl\n}\n", "reject", "mangled-name-of-imported-public-global-read"},
+			{"import l \"lib.tsh\"\n@MANGLED@Gl = 7\nprint(l.Pub())\n", "Gl := 5\nfunc Pub() int {\n\treturn Gl\n}\n", "reject", "mangled-name-of-imported-public-global-written"},
+			{"import l \"lib.tsh\"\n@MANGLED@gl++\nprint(l.Pub())\n", "gl := 5\nfunc Pub() int {\n\treturn gl\n}\n", "reject", "mangled-name-of-imported-private-global-incremented"},
+			{"import l \"lib.tsh\"\nprint(@MANGLED@Pub())\n", "func Pub() int {\n\treturn 1\n}\n", "reject", "mangled-name-of-imported-function-called"},
 			{"import l \"lib.tsh\"\nimport m \"lib2.tsh\"\nprint(l.Pub(), m.Other())\n", "func Pub() int {\n\treturn Other()\n}\n", "reject", "function-of-sibling-import-without-alias"},
 		} {
+			if strings.Contains(ib.main, "@MANGLED@") {
+				h := sha256.Sum256([]byte(ib.lib))
+				ib.main = strings.ReplaceAll(ib.main, "@MANGLED@", "m"+fmt.Sprintf("%x", h[:])[:7]+"_")
+			}
 			files := map[string]string{"main.tsh": ib.main, "lib.tsh": ib.lib, "lib2.tsh": "func Other() int {\n\treturn 2\n}\n"}
 			c := verdictCase{Kind: "verdict", Property: "C07", Files: files, Main: "main.tsh", Expect: ib.expect, Note: "import-boundary:" + ib.note}
 			r.Eval()
